@@ -128,6 +128,11 @@ func remoteReadAt(client *http.Client, url string, p []byte, off int64) (n int, 
 		return 0, err
 	}
 	defer resp.Body.Close()
+	// Only a 206 carries the requested range (a 200 carries the whole file, which
+	// starts with the requested bytes only when off == 0); anything else is a failed fetch.
+	if resp.StatusCode != http.StatusPartialContent && !(resp.StatusCode == http.StatusOK && off == 0) {
+		return 0, fmt.Errorf("unexpected status code %d for range request %d-%d of %s", resp.StatusCode, off, off+int64(len(p)), url)
+	}
 	{
 		n, err := io.ReadFull(resp.Body, p)
 		if err != nil {
